@@ -603,7 +603,7 @@ public:
         }
 
         if constexpr(IsPeriodic){
-            assert(std::size(indexes) == getNbNeighborsPerLeaf());
+            assert(upperExclusion || std::size(indexes) == getNbNeighborsPerLeaf());
         }
 
         return indexes;
